@@ -92,7 +92,7 @@ CHECKS = {
              "Non-trivial = series with a storm (> 20 mm), a dry spell of >= 5 steps and length >= 20; distinct = distinct case",
         assumptions=["Surm smax >= 10 mm (below that its ET term 10*S/smax is not bounded by the store); Sacramento capacities >= 5 mm; GR4J budget only for x2 <= 0",
                      "tolerance 1e-9*(1+sum of magnitudes entering the identity)"],
-        quick=dict(stages=[st(4000, timeout=900)]),
+        quick=dict(stages=[st(4000, shards=8, timeout=900)]),
         thorough=dict(stages=[st(100000, shards=16, timeout=3500)]),
     ),
     "C15": dict(
